@@ -366,6 +366,45 @@ def run(prog, ctx):
         res.rule("C03.E", r2.rules.get("C02.E", {}).get("instances", 0), 3, "emptiness of the register arrays (imported from C02.E)")
     except Exception as ex:
         res.extra.setdefault("undecided_items", []).append("C03.E could not run C02: %r" % (ex,))
+    # C03.V  the union reads a source's registers through the array accessors; for the 4-bit array the accessor must return
+    #        what the writer stored: cur_min + nibble below the token, and for an exception slot exactly the value the update path
+    #        hands to the aux table (its argument is evaluated for a coupon of value v and fed back through the accessor)
+    from .. import formula
+    A4 = "hll::array4::Array4"
+    n_v = 0
+    g4, u4 = C.fn_one(prog, A4, "get"), C.fn_one(prog, A4, "update")
+    tok = prog.consts.get("hll::array4::AUX_TOKEN", {}).get("v", 15)
+    if g4 is not None and u4 is not None:
+        eg = C.ret_expr(prog, g4)
+        su = Sym(prog, u4)
+        stored = [su.at(b, "t").operand(site["args"][2]) for b, site in u4.calls()
+                  if (site.get("callee") or "").startswith("hll::aux_map::AuxMap::") and (site.get("callee") or "").rsplit("::", 1)[-1] in ("insert", "replace") and len(site["args"]) == 3]
+        n_v += 1
+        verdict, wit = None, "accessor or aux writer not recognised"
+        if eg is not None and stored:
+            try:
+                verdict = True
+                for cm in (0, 1, 5, 20):
+                    for v in range(cm, 64):
+                        nib = v - cm
+                        auxv = None
+                        if nib >= tok:
+                            vals = set(formula.evaluate(x, {"coupon": (v << 26) | 77, "@prog": prog}) for x in stored)
+                            if len(vals) != 1:
+                                raise formula.Uneval("aux writers disagree")
+                            auxv = vals.pop()
+                        env = {"@prog": prog, "self.cur_min": cm, "slot": 77, "@fn:get_raw": lambda *a, _n=min(nib, tok): _n,
+                               "@fn:and_then": lambda *a, _x=auxv: ("$variant", "Some", _x) if _x is not None else ("$variant", "None"),
+                               "@fn:unwrap_or": lambda o, d: (o[2] if isinstance(o, tuple) and o[1] == "Some" else d),
+                               "@lenient": ("get_raw", "and_then")}
+                        got = formula.evaluate(eg, env)
+                        if got != v and verdict:
+                            verdict = False
+                            wit = "with cur_min %d a register of value %d (%s) reads back as %r" % (cm, v, "nibble %d" % nib if nib < tok else "aux entry %r" % auxv, got)
+            except (formula.Uneval, TypeError) as u:
+                verdict, wit = None, "not evaluable: %s" % (u,)
+        res.tri(verdict, "C03.V", "C03.V|%s" % A4, "Array4::get does not return what Array4::update stored: %s" % wit, g4.id)
+    res.rule("C03.V", n_v, 1, "register accessor of the 4-bit array vs its writer")
     res.explanation = ("structural rules over the %d functions reachable from HllUnion::{update,to_sketch,reset,new}: gadget adoption guard, "
                        "max-merge stores, down-sample masks, cache rebuild post-domination, estimator-state transfer, gadget type" % len(reach))
     res.not_decided = "order/repetition independence and numeric equality of estimates"
